@@ -16,6 +16,9 @@ def run(res, tier, seed, replay):
         recs = ss.corpus_recs("C07", dump=True)
         r4, h4 = ss.run_streams([("greedy", 25, "sync", "debug", 800 * (1 if tier == "quick" else 25)),
                                  ("greedy", 25, "yield", "debug", 300 * (1 if tier == "quick" else 25)),
+                                 ("greedy", 25, "gated:lifo", "debug", 400 * (1 if tier == "quick" else 25)),
+                                 ("greedy", 25, "gated:random", "debug", 300 * (1 if tier == "quick" else 25)),
+                                 ("greedy", 29, "gated:lifo", "release", 300 * (1 if tier == "quick" else 25)),
                                  ("conflict", 127, "sync", "debug", 500 * (1 if tier == "quick" else 25))], seed + 29, dump=True)
         recs += r4
         n = 1 if tier == "quick" else 30
